@@ -46,7 +46,7 @@ def lattice_cases(db, cid, e0, dt, syden, have):
     wl = {e: z for e, z in t["wl"]}
     zs = [z for _, z in t["wl"]]
     grid = {"lo": t["grid"][0], "hi": t["grid"][1], "count": t["grid"][2],
-            "minp": int(round(2 * min(zs))), "maxp": int(round(2 * max(zs)))}
+            "minp": int(round(2 * min(zs))), "maxp": int(round(2 * max(zs))), "slack": 0}
     prov, stat = [], []
     if "recession" in have:
         owners = []
@@ -79,6 +79,59 @@ def stat_case(cid, rows, off, scale, idx):
     return {"id": cid, "levels": lv, "intervals": sorted({idx(e) for e in off}), "slack": 4}
 
 
+def nondyadic_cases(db, cid, e0, dt, syden, stepf, have):
+    """a lattice dataset whose levels are multiples of a grid step such as 0.1 or 0.3 mm:
+    everything in fixed point (D = 1000 per grid step), one unit of slack on the grid cover"""
+    conn = sqlite3.connect(db)
+    try:
+        t = _tables(conn)
+    finally:
+        conn.close()
+    D = 1000
+    idx = lambda e: (e - e0) // dt
+    wl = {e: z for e, z in t["wl"]}
+    zs = [z for _, z in t["wl"]]
+    fxp = lambda z: int(round(z / stepf * D))
+    grid = {"lo": t["grid"][0], "hi": t["grid"][1], "count": t["grid"][2], "minp": fxp(min(zs)), "maxp": fxp(max(zs)),
+            "slack": 1}
+    prov = []
+    if "recession" in have:
+        owners = [{"start": idx(a), "samples": [[(e - a) // dt, fxp(wl[e])] for e in sorted(wl) if a <= e <= z]}
+                  for a, z in t["inter"]]
+        prov.append({"id": "%s recession" % cid, "kind": "recession", "D": D, "K": 1000, "tol": 5, "owners": owners,
+                     "members": [idx(e) for e in t["rec_members"]],
+                     "rows": [{"start": idx(e), "n": n, "v": int(round(v / dt * 1000))} for e, n, v in t["rec_rows"]],
+                     "grid": grid})
+    if "rise" in have:
+        unit = stepf / syden          # rain depth per lattice unit of lift
+        fx2 = lambda z: int(round(z / stepf * 100))       # coarser lattice: products must stay below 2^31
+        owners = [{"start": idx(a), "samples": [[0, fx2(wl[a])], [int(round(depth / unit * 100)), fx2(wl[z])]]}
+                  for a, z, depth in t["rises"]]
+        prov.append({"id": "%s rise" % cid, "kind": "rise", "D": 100, "K": 10, "tol": 5, "owners": owners,
+                     "members": [idx(e) for e in t["rise_members"]],
+                     "rows": [{"start": idx(e), "n": n, "v": int(round(v / unit * 100 * 10))} for e, n, v in t["rise_rows"]],
+                     "grid": dict(grid, minp=fx2(min(zs)), maxp=fx2(max(zs)))})
+    return prov
+
+
+def _nd_worker(args):
+    from . import ref_checks as RF
+    idx, beh, step, base = args
+    wd = workdir("prvnd")
+    try:
+        wf, err = RF.build_dataset(beh, step, base, wd, "nd%d" % idx, half=0.0)
+        if err:
+            return idx, step, base, [], err
+        have = [c for c in ("recession", "rise") if wf.run(c).ok]
+        stepf = step[0] / step[1]
+        prov = nondyadic_cases(wf.db, "beh%d step %d/%d base %d" % (idx, step[0], step[1], base),
+                               wf.files and P.epoch_of(2013, 3, 1), 1800, beh["syden"], stepf, have) if have else []
+        wf.cleanup()
+        return idx, step, base, prov, None
+    finally:
+        rm(wd)
+
+
 def validate(chk, module, cases, label):
     if not cases:
         return []
@@ -93,7 +146,7 @@ def validate(chk, module, cases, label):
         rm(wd)
     chk.add_tlc(res, label)
     if not res["ok"] or res["distinct"] != len(cases) + 1:
-        raise MachineryError("%s did not consume all cases: %s" % (module, res["tail"][-1200:]))
+        raise MachineryError("%s did not consume all cases: %s\n%s" % (module, res["error"][:1500], res["tail"][-600:]))
     return res["fails"]
 
 
@@ -166,7 +219,8 @@ def field_cases(k, s, j, step):
     zs = [z for _, z in t["wl"]]
     D = 1000
     fxp = lambda z: int(round(z / step * D))
-    grid = {"lo": t["grid"][0], "hi": t["grid"][1], "count": t["grid"][2], "minp": fxp(min(zs)), "maxp": fxp(max(zs))}
+    grid = {"lo": t["grid"][0], "hi": t["grid"][1], "count": t["grid"][2], "minp": fxp(min(zs)), "maxp": fxp(max(zs)),
+            "slack": 0 if step in (1.0, 0.5, 2.0, 0.25) else 1}
     import bisect
     rng = random.Random(seed() + k)
     owners, by_start = [], {}
@@ -214,6 +268,18 @@ def c13(chk, tier):
     for k, s, j, step in ([(1, 8.0, 5.0, 1.0)] if q else [(1, 8.0, 5.0, 1.0), (2, 8.0, 5.0, 1.0), (2, 4.0, 2.0, 0.5), (1, 4.0, 8.0, 2.5)]):
         p, _ = field_cases(k, s, j, step)
         fprov += p
+    # grid steps that are not binary fractions, levels ON grid lines (max/step an integer up to rounding)
+    behs = sorted({json.dumps(m["beh"], sort_keys=True) for m in meta.values()})
+    behs = [json.loads(b) for b in behs][:12 if q else 80]
+    jobs = [(i, b, st, base) for i, b in enumerate(behs) for st, base in
+            (((1, 10), 0), ((3, 10), -379)) + (() if q else (((1, 5), 60), ((1, 10), -1203)))]
+    with mp.Pool(12) as pool:
+        for idx, st, base, p, err in pool.imap_unordered(_nd_worker, jobs):
+            if err:
+                chk.violation("workflow at grid step %s/%s failed: %s" % (st[0], st[1], err), {"kind": "prov", "detail": err})
+            fprov += p
+            for c in p:
+                meta[c["id"]] = {"beh": behs[idx], "step": list(st), "base": base}
     fails = validate(chk, "TraceProvenance", prov + fprov, "TraceProvenance on %d cases" % (len(prov) + len(fprov)))
     for c in prov + fprov:
         chk.count("evaluations", len(c["rows"]))
